@@ -103,6 +103,9 @@ func (vc *VC) run() {
 		vc.enterBlock(rs, b)
 		if vc.cur.pc == "false" {
 			rs.out[b] = &blockOut{pc: "false", heap: vc.cur.heap}
+			for i := range b.Succs {
+				rs.edge[edgeKey{b, i}] = "false"
+			}
 			continue
 		}
 		for _, ins := range b.Instrs {
@@ -138,7 +141,11 @@ func (vc *VC) incoming(rs *runState, b *ssa.BasicBlock, back bool) (preds []*ssa
 		var cs []string
 		for i, s := range p.Succs {
 			if s == b {
-				cs = append(cs, rs.edge[edgeKey{p, i}])
+				ec := rs.edge[edgeKey{p, i}]
+				if ec == "" {
+					ec = "false"
+				}
+				cs = append(cs, ec)
 			}
 		}
 		dup := false
@@ -149,6 +156,9 @@ func (vc *VC) incoming(rs *runState, b *ssa.BasicBlock, back bool) (preds []*ssa
 		}
 		if dup {
 			continue
+		}
+		if sOr(cs...) == "false" {
+			continue // edge never taken (unreachable predecessor)
 		}
 		preds = append(preds, p)
 		conds = append(conds, sOr(cs...))
